@@ -336,6 +336,17 @@ func c09RoundTrip(r *rt.Run) {
 			if wf.Fired && err == nil {
 				r.Violate("C09/write-error-swallowed", "Marshal", "the sink failed but Marshal returned nil")
 			}
+			// the failed call is over: the same value marshalled to a healthy sink
+			// right afterwards gives the text it gave before
+			w2 := simio.NewWriter(r, "sink-after-failure")
+			err2, task2 := c09Marshal(r, &m.v, w2)
+			if taskTrouble(r, "C09", "Marshal/after-failed-marshal", task2) {
+				return
+			}
+			if err2 != nil || string(w2.Buf) != text {
+				r.Violate("C09/marshal-not-repeatable", "after-a-failed-marshal", "a Marshal into a failing sink was followed by a Marshal of the same value into a healthy one: err=%v, text %q, before the failure it was %q", err2, clip(string(w2.Buf), 300), clip(text, 300))
+			}
+			r.Probe("marshalled-again-after-a-failed-marshal")
 			return
 		}
 		var back c09All
@@ -407,12 +418,58 @@ func c09RoundTrip(r *rt.Run) {
 			out += l
 		}
 		var x c09All
-		err, task := c09Unmarshal(r, &x, []byte(out))
+		how := "Req"
+		var err error
+		var task *rt.Task
+		switch t.Draw(4, "c09.dropreq.target") {
+		case 0: // a fresh destination
+			err, task = c09Unmarshal(r, &x, []byte(out))
+		case 1: // the destination still holds the values of an earlier, complete input
+			x = back
+			how = "Req/destination-holds-earlier-values"
+			err, task = c09Unmarshal(r, &x, []byte(out))
+		case 2: // one Decoder, one variable: a complete paragraph, then the one that lacks the field
+			how = "Req/second-Decode-into-the-same-variable"
+			rd := simio.NewReader(r, "store", []byte(text+"\n"+out))
+			var first error
+			task = r.Solo("decoder", func() {
+				dec, e := control.NewDecoder(rd, nil)
+				if e != nil {
+					err = e
+					return
+				}
+				if first = dec.Decode(&x); first != nil {
+					err = first
+					return
+				}
+				err = dec.Decode(&x)
+			})
+			if first != nil {
+				r.Violate("C09/unmarshal-error", "all-kinds/decoder", "Decode of marshalled text failed: %v", first)
+				return
+			}
+		default: // Unmarshal, then UnpackFromParagraph into the same variable
+			how = "Req/UnpackFromParagraph-after-Unmarshal"
+			x = back
+			task = r.Solo("unpack", func() {
+				pr, e := control.NewParagraphReader(simio.NewPlainReader(r, "store", []byte(out)), nil)
+				if e != nil {
+					err = e
+					return
+				}
+				para, e := pr.Next()
+				if e != nil {
+					err = e
+					return
+				}
+				err = control.UnpackFromParagraph(*para, &x)
+			})
+		}
 		if taskTrouble(r, "C09", "Unmarshal/missing-required", task) {
 			return
 		}
 		if err == nil {
-			r.Violate("C09/missing-required-accepted", "Req", "input lacks the required field Req but Unmarshal returned nil")
+			r.Violate("C09/missing-required-accepted", how, "input lacks the required field Req but decoding returned nil (Req is now %q)", x.Req)
 		}
 		r.Probe("missing-required-field")
 	}
@@ -746,5 +803,5 @@ func init() {
 		},
 		Assumptions: []string{"'optional zero fields are omitted' is demanded for fields whose text form is empty when zero (strings, lists, versions, dependencies); the pinned test suite requires false booleans to be written as 'no', and zero integers are written as '0'", "architecture values are restricted to names whose String() form re-parses to the same value (wildcard and three-part names lose information in Arch.String, which belongs to the not-applicable properties C05/C06)"},
 	})
-	propProbes["C09"] = []string{"same-named-struct-types", "uint-above-int64-range", "marshalled-repeatedly", "list-elements-independent", "several-known-fields-cleared", "required-empty-list", "multi-line-string-field", "paragraph-api", "missing-required-field", "unknown-fields-present", "known-field-cleared", "nested-plain-struct", "pointer-fields"}
+	propProbes["C09"] = []string{"marshalled-again-after-a-failed-marshal", "same-named-struct-types", "uint-above-int64-range", "marshalled-repeatedly", "list-elements-independent", "several-known-fields-cleared", "required-empty-list", "multi-line-string-field", "paragraph-api", "missing-required-field", "unknown-fields-present", "known-field-cleared", "nested-plain-struct", "pointer-fields"}
 }
